@@ -313,9 +313,12 @@ def judge(prep, res):
                 continue
             if (a["a"] == "shelve" and r.get("raise") == "KeyError" and r.get("site", [])[-2:] == ["get", "load_item"]
                     and r.get("msg", "").startswith("'Non-existing item")
-                    and any(any(e["op"] == "rmdir" and e.get("r") == "ok" and base.pcode(e["p"], {})[:2] == (6, a["k"])
+                    and any(any(e.get("r") == "ok" and ((e["op"] == "rmdir" and base.pcode(e["p"], {})[:2] == (6, a["k"]))
+                                                         or (e["op"] == "unlink" and base.pcode(e["p"], {})[:2] == (7, a["k"])))
                                 for e in o.get("log", [])) for j, o in enumerate(res["outs"]) if j != i)):
-                # documented: .get() of a shelved reference whose item another participant removed in the meantime
+                # documented: .get() of a shelved reference whose item another participant removed in the meantime: its log
+                # shows a successful unlink of that entry's output.pkl (the rmdir that follows may fail with ENOTEMPTY when the
+                # storer has meanwhile written its metadata temporary) or the rmdir of the entry directory
                 # (eviction, clear, or invalidation by a validation callback) raises KeyError('Non-existing item ...')
                 continue
             if "raise" in r:
